@@ -1,1 +1,349 @@
-"""Rules for C11 (see DESIGN.md section 5)."""
+"""C11 -- module iteration and per-type colouring."""
+import ast
+
+from .. import ev, iso, nf, pat, src, reg
+from ..core import rule, ob, explain, Ob
+from ..ev import PyRaise
+from ..interp import Interp, make_callable, FuncVal, callable_env
+from ..src import Unknown
+from .common import C, levels, micro_versions, modes, table_ob, need, single
+
+explain('C11', '''Decided (structural): the TYPE_* constants (dark = light << 8, distinct light codes < 256, dark module
+non-zero >> 8, separator and quiet zone zero >> 8); matrix_iter and matrix_iter_verbose are interpreted on a matrix of
+position markers for several (size, scale, border) and yield (size+2b)*s rows of (size+2b)*s values with value(y, x) =
+module(y div s - b, x div s - b), 0 / quiet zone outside, and refuse negative or fractional borders and scales < 1 after
+truncation with ValueError; the classifier get_bit of matrix_iter_verbose is interpreted for the cells of a compressed
+coordinate grid (all coordinates within 13 of an edge, all alignment neighbourhoods, generic interior points; every cell
+in the thorough tier) of the examined sizes and for both module values and returns exactly the type ISO assigns to the
+position in the dark/light variant of the value (one cell differs on every QR size: known finding, pinned by tests);
+_make_colormap maps each type to its own keyword with the fallback of its own polarity and drops exactly the types a
+size cannot contain, the decorator forwards all 17 keywords, and the types the classifier can emit for a size are keys
+of the map of that size; the two-colour shortcuts of write_png/write_svg are taken only under a guard that implies one
+colour per polarity; the colourful renderers look every module up by its type. NOT decided: the bytes of the outputs.''')
+
+TYPES = ('FINDER_PATTERN', 'DATA', 'VERSION', 'ALIGNMENT_PATTERN', 'TIMING', 'FORMAT')
+
+
+@rule('C11', 'R1', 12, 'TYPE constants: dark = light << 8, light codes distinct and < 256, polarity of the single-valued types')
+def r1(fx):
+    lights = {}
+    for t in TYPES:
+        li, da = C(fx, f'TYPE_{t}_LIGHT'), C(fx, f'TYPE_{t}_DARK')
+        lights[t] = li
+        yield table_ob(fx, f'TYPE_{t}_DARK', 'light<<8', (da, 0 < li < 256), (li << 8, True))
+    sep, qz, dm = C(fx, 'TYPE_SEPARATOR'), C(fx, 'TYPE_QUIET_ZONE'), C(fx, 'TYPE_DARKMODULE')
+    allv = list(lights.values()) + [sep, qz]
+    yield table_ob(fx, 'TYPE_*', 'light codes pairwise distinct', len(set(allv)) == len(allv), True)
+    yield table_ob(fx, 'TYPE_SEPARATOR', '>>8 == 0', (sep >> 8 == 0, 0 < sep < 256), (True, True))
+    yield table_ob(fx, 'TYPE_QUIET_ZONE', '>>8 == 0', (qz >> 8 == 0, 0 < qz < 256), (True, True))
+    yield table_ob(fx, 'TYPE_DARKMODULE', '>>8 != 0 and distinct', (dm >> 8 != 0, dm not in [v << 8 for v in allv] + allv), (True, True))
+    yield table_ob(fx, 'TYPE_*', 'dark codes pairwise distinct', len({C(fx, f'TYPE_{t}_DARK') for t in TYPES} | {dm}) == 7, True)
+    yield table_ob(fx, 'TYPE_*', 'count', len(allv) + 7, 15)
+
+
+def _utils_env(fx, it):
+    genv = callable_env(fx.forest, 'utils', it)
+    enc = callable_env(fx.forest, 'encoder', it, reg.model_env())
+    genv['encoder'] = ev.Namespace('encoder', enc)
+    return genv
+
+
+def _marker_matrix(n):
+    return [[1000 + i * 200 + j for j in range(n)] for i in range(n)]
+
+
+@rule('C11', 'R6', 40, 'matrix_iter / matrix_iter_verbose: grid size, (y div s - b, x div s - b) mapping, validation of scale and border')
+def r6(fx):
+    it = Interp(max_steps=50_000_000)
+    genv = _utils_env(fx, it)
+    mi = FuncVal(fx.fn('utils', 'matrix_iter'), genv, it)
+    fn = fx.fn('utils', 'matrix_iter')
+    for n in (11, 21):
+        m = _marker_matrix(n)
+        dflt = 2 if n < 21 else 4
+        for scale, s_eff in ((1, 1), (2, 2), (3, 3), (2.9, 2), (1.5, 1)):
+            for border in (None, 0, 1, 3):
+                b = dflt if border is None else border
+                rows = mi(m, (n, n), scale, border)
+                size = (n + 2 * b) * s_eff
+                want = [[(m[y // s_eff - b][x // s_eff - b] if 0 <= y // s_eff - b < n and 0 <= x // s_eff - b < n else 0)
+                         for x in range(size)] for y in range(size)]
+                yield ob(f'matrix_iter size {n} scale {scale} border {border}', [list(r) for r in rows] == want, fn,
+                         got=f'{len(rows)} rows x {len(rows[0]) if rows else 0}', want=f'{size} x {size} with value(y, x) = module(y//s - b, x//s - b)')
+    for name in ('matrix_iter', 'matrix_iter_verbose'):
+        f = FuncVal(fx.fn('utils', name), genv, it)
+        m = reg.Matrix([reg.Row([0] * 11) for _ in range(11)])
+        for scale, border, want in ((0, 1, 'raises ValueError'), (-1, 1, 'raises ValueError'), (0.5, 1, 'raises ValueError'),
+                                    (1, -1, 'raises ValueError'), (1, 1.5, 'raises ValueError'), (2, 0.5, 'raises ValueError'),
+                                    (1, 0, 'ok'), (1.9, None, 'ok'), (1, 2.0, 'ok')):
+            try:
+                f(m, (11, 11), scale, border)
+                got = 'ok'
+            except PyRaise as e:
+                got = f'raises {e.name}'
+            yield ob(f'{name}: scale={scale} border={border}', got == want, fx.fn('utils', name), got=got, want=want)
+    # QRCode.matrix_iter dispatch
+    q = fx.fn('__init__', 'QRCode.matrix_iter')
+    r = single([s for s in q.body if isinstance(s, ast.Return)], 'return of QRCode.matrix_iter')
+    a = single([s for s in q.body if isinstance(s, ast.Assign)], 'iterfn selection')
+    okq = nf.norm(a.value) == 'utils.matrix_iter_verbose if verbose else utils.matrix_iter' and \
+        pat.match(r.value, 'iterfn(self.matrix, self._matrix_size, scale, border)') is not None
+    yield ob('QRCode.matrix_iter dispatches on verbose with (matrix, size, scale, border)', okq, q, got=f'{ast.unparse(a)}; {ast.unparse(r.value)}',
+             want='utils.matrix_iter_verbose if verbose else utils.matrix_iter')
+
+
+def _classifier(fx, it, genv, n, val):
+    """get_bit closure of matrix_iter_verbose for an n x n symbol whose modules all have value `val`."""
+    fn = fx.fn('utils', 'matrix_iter_verbose')
+    k = [i for i, s in enumerate(fn.body) if isinstance(s, ast.FunctionDef) and s.name == 'get_bit']
+    need(len(k) == 1, 'get_bit not found in matrix_iter_verbose')
+    m = reg.Matrix([reg.Row([val] * n) for _ in range(n)])
+    e = dict(genv, matrix=m, matrix_size=(n, n), scale=1, border=0)
+    it.block(fn.body[:k[0] + 1], e)
+    return e['get_bit']
+
+
+def _coords(v, full):
+    n = iso.size_of(v)
+    if full or n <= 29:
+        return list(range(n))
+    cs = set(range(0, 14)) | set(range(n - 14, n)) | {n // 2, n // 2 + 1, 20, 21}
+    for c in iso.alignment_centres(v):
+        cs |= set(range(c - 3, c + 4))
+    return sorted(x for x in cs if 0 <= x < n)
+
+
+@rule('C11', 'R3', 16, 'classifier: every examined cell gets the type ISO assigns to its position, in the variant of its value')
+def r3(fx):
+    it = Interp(max_steps=2_000_000_000)
+    genv = _utils_env(fx, it)
+    fn = fx.fn('utils', 'matrix_iter_verbose.get_bit')
+    full = fx.tier == 'thorough'
+    sizes = list(iso.ALL_VERSIONS) if full else [-3, -2, -1, 0, 1, 2, 6, 7, 14, 40]
+    T = {t: (C(fx, f'TYPE_{t}_LIGHT'), C(fx, f'TYPE_{t}_DARK')) for t in TYPES}
+    kind_type = {'finder': 'FINDER_PATTERN', 'timing': 'TIMING', 'alignment': 'ALIGNMENT_PATTERN', 'format': 'FORMAT',
+                 'version': 'VERSION'}
+    sep, qz, dm = C(fx, 'TYPE_SEPARATOR'), C(fx, 'TYPE_QUIET_ZONE'), C(fx, 'TYPE_DARKMODULE')
+    emitted = {}
+    cells = 0
+    for v in sizes:
+        n = iso.size_of(v)
+        lay = iso.layout(v)
+        co = _coords(v, full)
+        for val in (1, 0):
+            if val == 0 and not full and n > 29:
+                continue
+            gb = _classifier(fx, it, genv, n, val)
+            bad = {}
+            for i in co:
+                for j in co:
+                    got = gb(i, j)
+                    cells += 1
+                    emitted.setdefault(v, set()).add(got)
+                    kind = lay.get((i, j), ('data', None))[0]
+                    if kind == 'alignment':
+                        want = T['ALIGNMENT_PATTERN'][lay[(i, j)][1]]     # the pattern's own value
+                    elif kind == 'separator':
+                        want = sep
+                    elif kind == 'darkmodule':
+                        want = dm
+                    elif kind == 'data':
+                        want = T['DATA'][val]
+                    else:
+                        want = T[kind_type[kind]][val]
+                    if got != want:
+                        bad.setdefault((kind, got), []).append((i, j))
+            for out_i, out_j in ((-1, 0), (0, -1), (n, 0), (0, n), (-2, n + 1)):
+                if gb(out_i, out_j) != qz:
+                    bad.setdefault(('quiet zone', gb(out_i, out_j)), []).append((out_i, out_j))
+
+            def anch(rc):
+                return tuple((x if x < n // 2 else f'N-{n - x}') for x in rc)
+            if not bad:
+                yield Ob(f'v{v} value {val}: all examined cells', True, 'utils.matrix_iter_verbose.get_bit', fn.lineno,
+                         f'{len(co) ** 2} cells as required', 'ISO layout', True)
+            for (kind, got), lst in sorted(bad.items(), key=repr):
+                # one obligation per (anchored cell set, kind): stable across sizes so that a known finding can name it
+                key = f'{"QR" if v >= 1 else "Micro"} value {val}: {kind} cells {sorted(set(map(anch, lst)), key=repr)[:4]} typed {got}'
+                yield Ob(key, False, 'utils.matrix_iter_verbose.get_bit', fn.lineno,
+                         f'v{v}: {len(lst)} cell(s) {[anch(x) for x in lst[:4]]} classified {got}', f'type of a {kind} module', True,
+                         note=f'size {n}')
+    fx.forest._cache['C11.emitted'] = emitted
+    fx.info['C11.R3 cells classified'] = cells
+    fx.info['C11.R3 emitted'] = {str(k): sorted(v_) for k, v_ in emitted.items()}
+
+
+def _type_names(fx):
+    out = {}
+    for t in TYPES:
+        out[C(fx, f'TYPE_{t}_LIGHT')] = (t, 'light')
+        out[C(fx, f'TYPE_{t}_DARK')] = (t, 'dark')
+    out[C(fx, 'TYPE_SEPARATOR')] = ('SEPARATOR', 'light')
+    out[C(fx, 'TYPE_QUIET_ZONE')] = ('QUIET_ZONE', 'light')
+    out[C(fx, 'TYPE_DARKMODULE')] = ('DARKMODULE', 'dark')
+    return out
+
+
+KEYWORD = {('FINDER_PATTERN', 'dark'): 'finder_dark', ('FINDER_PATTERN', 'light'): 'finder_light', ('DATA', 'dark'): 'data_dark',
+           ('DATA', 'light'): 'data_light', ('VERSION', 'dark'): 'version_dark', ('VERSION', 'light'): 'version_light',
+           ('FORMAT', 'dark'): 'format_dark', ('FORMAT', 'light'): 'format_light',
+           ('ALIGNMENT_PATTERN', 'dark'): 'alignment_dark', ('ALIGNMENT_PATTERN', 'light'): 'alignment_light',
+           ('TIMING', 'dark'): 'timing_dark', ('TIMING', 'light'): 'timing_light', ('SEPARATOR', 'light'): 'separator',
+           ('DARKMODULE', 'dark'): 'dark_module', ('QUIET_ZONE', 'light'): 'quiet_zone'}
+
+
+@rule('C11', 'R4', 48, 'colour map: each type <- its own keyword, fallback of its own polarity, types dropped exactly where a size cannot contain them; decorator forwards all keywords')
+def r4(fx):
+    it = Interp(max_steps=20_000_000)
+    genv = callable_env(fx.forest, 'writers', it)
+    fn = fx.fn('writers', '_make_colormap')
+    mk = FuncVal(fn, genv, it)
+    names = _type_names(fx)
+    for n, absent in ((11, {'DARKMODULE', 'ALIGNMENT_PATTERN', 'VERSION'}), (17, {'DARKMODULE', 'ALIGNMENT_PATTERN', 'VERSION'}),
+                      (21, {'VERSION'}), (41, {'VERSION'}), (45, set()), (177, set())):
+        cm = mk(n, n, dark='<D>', light='<L>')
+        want_keys = {code for code, (t, pol) in names.items() if t not in absent}
+        yield ob(f'size {n}: key set', set(cm) == want_keys, fn, got=sorted(set(cm) ^ want_keys), want='no difference')
+        okf = all(cm[c] == ('<D>' if names[c][1] == 'dark' else '<L>') for c in cm if c in names)
+        yield ob(f'size {n}: fallback colours follow polarity', okf, fn, got={c: cm[c] for c in cm if c in names and cm[c] != ('<D>' if names[c][1] == 'dark' else '<L>')}, want={})
+    for code, (t, pol) in sorted(names.items()):
+        kw = KEYWORD[(t, pol)]
+        cm = mk(177, 177, dark='<D>', light='<L>', **{kw: '<X>'})
+        others = {c: v for c, v in cm.items() if c != code and v == '<X>'}
+        yield ob(f'{kw} colours exactly {t}/{pol}', cm.get(code) == '<X>' and not others, fn, got=(cm.get(code), others), want=('<X>', {}))
+        cm2 = mk(177, 177, dark='<D>', light='<L>', **{kw: None})
+        yield ob(f'{kw}=None (transparent) is kept, not replaced by the fallback', cm2.get(code, 'missing') is None, fn,
+                 got=cm2.get(code, 'missing'), want=None)
+    # the decorator
+    col = FuncVal(fx.fn('writers', 'colorful'), genv, it)
+    seen = {}
+
+    def f_stub(matrix, matrix_size, out, cm, **kw):
+        seen['f'] = (matrix, matrix_size, out, cm, kw)
+        return '<ret>'
+
+    def mk_stub(*a, **kw):
+        seen['mk'] = (a, kw)
+        return '<cm>'
+    genv2 = dict(genv, _make_colormap=mk_stub)
+    col2 = FuncVal(fx.fn('writers', 'colorful'), genv2, it)
+    wrapper = col2('<dflt-dark>', '<dflt-light>')(f_stub)
+    allkw = sorted(set(KEYWORD.values()) | {'dark', 'light'})
+    args = {k: f'<{k}>' for k in allkw}
+    ret = wrapper('<m>', (21, 25), '<out>', scale=3, **args)
+    a, kw = seen['mk']
+    yield ob('decorator: every colour keyword reaches the same-named parameter of _make_colormap', kw == args and a == (21, 25), fx.fn('writers', 'colorful'),
+             got={k: v for k, v in kw.items() if args.get(k) != v}, want={})
+    yield ob('decorator: calls the writer with (matrix, matrix_size, out, colormap) and the remaining options', seen['f'] == ('<m>', (21, 25), '<out>', '<cm>', {'scale': 3}) and ret == '<ret>',
+             fx.fn('writers', 'colorful'), got=seen.get('f'), want="('<m>', (21, 25), '<out>', '<cm>', {'scale': 3})")
+    wrapper('<m>', (21, 21), '<out>')
+    a, kw = seen['mk']
+    okd = kw.get('dark') == '<dflt-dark>' and kw.get('light') == '<dflt-light>' and all(v is False for k, v in kw.items() if k not in ('dark', 'light'))
+    yield ob('decorator: defaults are the decorator arguments for dark/light and False (= not set) for the per-type colours', okd,
+             fx.fn('writers', 'colorful'), got=kw, want='dark/light defaults, False elsewhere')
+    # which writers are decorated, and with which defaults
+    for w, want in (('write_svg', ("'#000'", 'None')), ('write_png', ("'#000'", "'#fff'")), ('write_ppm', ("'#000'", "'#fff'"))):
+        wf = fx.fn('writers', w)
+        decs = [d for d in wf.decorator_list if isinstance(d, ast.Call) and src.call_name(d) == 'colorful']
+        d = single(decs, f'@colorful on {w}')
+        kwd = src.kwargs_of(d)
+        got = (ast.unparse(kwd.get('dark', d.args[0] if d.args else ast.Constant(None))), ast.unparse(kwd.get('light', d.args[1] if len(d.args) > 1 else ast.Constant(None))))
+        yield ob(f'{w} is colourful with defaults dark={want[0]} light={want[1]}', got == want, wf, got=got, want=want)
+
+
+@rule('C11', 'R5', 6, 'types the classifier can emit for a size are keys of the colour map of that size')
+def r5(fx):
+    it = Interp(max_steps=2_000_000_000)
+    genv = _utils_env(fx, it)
+    wenv = callable_env(fx.forest, 'writers', it)
+    mk = FuncVal(fx.fn('writers', '_make_colormap'), wenv, it)
+    qz = C(fx, 'TYPE_QUIET_ZONE')
+    cache = fx.forest._cache.get('C11.emitted')
+    if cache is None:
+        list(r3(fx))
+        cache = fx.forest._cache['C11.emitted']
+    for v in (-3, 0, 1, 6, 7, 40):
+        n = iso.size_of(v)
+        emitted = {qz} | cache[v]
+        keys = set(mk(n, n, dark='<D>', light='<L>'))
+        # a key that is never emitted is an unused colour (harmless); an emitted type without key is a KeyError
+        yield ob(f'v{v}: every emitted type has a colour', emitted <= keys, fx.fn('writers', '_make_colormap'),
+                 got=f'emitted but no key: {sorted(emitted - keys)}', want='emitted types are keys')
+
+
+def _guard_sufficient(test, fn, mapname):
+    """Classify the two-colour shortcut guard (DESIGN A.8).  Returns (verdict, text): 'sufficient' if the
+    multi-colour branch is taken whenever the dark types or the light types carry more than one colour."""
+    al = {}
+    for s in src.statements(fn.body):
+        if isinstance(s, ast.Assign) and len(s.targets) == 1 and isinstance(s.targets[0], ast.Name):
+            al[s.targets[0].id] = s.value
+    seen = set()
+
+    def inline(e):
+        while isinstance(e, ast.Name) and e.id in al and e.id not in seen:
+            seen.add(e.id)
+            e = al[e.id]
+        return e
+    t = inline(test)
+    disj = t.values if isinstance(t, ast.BoolOp) and isinstance(t.op, ast.Or) else [t]
+    has_dark = has_light = has_count = False
+    for d in disj:
+        d = inline(d)
+        txt = nf.norm(d)
+        b = pat.match(d, f'len({{H_c for H_k, H_c2 in {mapname}.items() if H_p}}) > 1')
+        if b is not None and nf.norm(b['c']) == nf.norm(b['c2']):
+            ptxt = nf.norm(b['p'])
+            ktxt = nf.norm(b['k'])
+            if ptxt == f'({ktxt}>>8)':
+                has_dark = True
+                continue
+            if ptxt == f'not ({ktxt}>>8)' or ptxt == f'not {ktxt} >> 8':
+                has_light = True
+                continue
+        if pat.match(d, f'len(set({mapname}.values())) > 2') is not None or pat.match(d, 'number_of_colors > 2') is not None \
+                or pat.match(d, 'H_n > 2') is not None:
+            has_count = True
+            continue
+        return 'unknown', ast.unparse(t)
+    if has_dark and has_light:
+        return 'sufficient', ast.unparse(t)
+    if has_count:
+        return 'insufficient', ast.unparse(t)
+    return 'unknown', ast.unparse(t)
+
+
+@rule('C11', 'R8', 4, 'two-colour shortcuts (PNG, SVG) only under a guard implying one colour per polarity; renderers look modules up by type')
+def r8(fx):
+    svg = fx.fn('writers', 'write_svg')
+    a = single([s for s in svg.body if isinstance(s, ast.Assign) and ast.unparse(s.targets[0]) == 'is_multicolor'], 'is_multicolor')
+    v, txt = _guard_sufficient(a.value, svg, 'colormap')
+    if v == 'unknown':
+        raise Unknown(f'write_svg: shortcut guard `{txt}` not understood')
+    yield ob('write_svg: plain rendering only if all dark types share one colour and all light types share one', v == 'sufficient', a,
+             got=txt, want='... or len({c for t, c in colormap.items() if t >> 8}) > 1 or len({c ... if not t >> 8}) > 1')
+    br = [s for s in svg.body if isinstance(s, ast.If) and ast.unparse(s.test) == 'is_multicolor']
+    b = single(br, '`if is_multicolor:` in write_svg')
+    okb = 'matrix_to_lines_verbose()' in ast.unparse(b.body[0]) and 'matrix_to_lines(' in ast.unparse(b.orelse)
+    yield ob('write_svg: multicolour branch uses the per-type iterator, plain branch the run extractor', okb, b,
+             got=ast.unparse(b.body[0])[:60], want='miter = matrix_to_lines_verbose()')
+    png = fx.fn('writers', 'write_png')
+    ifs = [s for s in png.body if isinstance(s, ast.If) and 'matrix_iter_verbose' in ast.unparse(s.body[0] if s.body else s)]
+    i = single(ifs, 'iterator selection in write_png')
+    v, txt = _guard_sufficient(i.test, png, 'clr_map')
+    if v == 'unknown':
+        raise Unknown(f'write_png: shortcut guard `{txt}` not understood')
+    yield ob('write_png: plain rendering only if all dark types share one colour and all light types share one', v == 'sufficient', i,
+             got=txt, want='number_of_colors > 2 or len({c for t, c in clr_map.items() if t >> 8}) > 1 or ...')
+    # lookups by type
+    mv = fx.fn('writers', 'write_svg.matrix_to_lines_verbose')
+    okl = any(pat.match(n, '(colormap[mt] for mt in row)') is not None for n in ast.walk(mv)) and \
+        any(pat.match(c, 'matrix_iter_verbose(matrix, matrix_size, scale=1, border=border)') is not None for c in src.calls_in(mv))
+    yield ob('write_svg multicolour: colour = colormap[type] of every cell of matrix_iter_verbose(border=border)', okl, mv, got=okl, want=True)
+    ppm = fx.fn('writers', 'write_ppm')
+    okp = any(pat.match(n, "b''.join(pack(b'>3B', *colormap[mt]) for mt in row)") is not None for n in ast.walk(ppm)) and \
+        any(pat.match(c, 'matrix_iter_verbose(matrix, matrix_size, scale, border)') is not None for c in src.calls_in(ppm))
+    yield ob('write_ppm: every pixel = colormap[type]', okp, ppm, got=okp, want=True)
+    okg = any(pat.match(n, '{module_type: palette.index(clr) for module_type, clr in clr_map.items()}') is not None for n in ast.walk(png)) \
+        and any(pat.match(n, '((color_index[b] for b in r) for r in miter)') is not None for n in ast.walk(png))
+    yield ob('write_png multicolour: palette index by type for every cell', okg, png, got=okg, want=True)
